@@ -11,7 +11,7 @@ RULE = (
     "fixed_rows(io.StringIO(text, newline='')). Oracle per case: soundness - no exception other than DataFormatError, every "
     "item has its declared width, and the input can be rebuilt from the rows by inserting delimiters the setting permits "
     "(final one optional); completeness - inputs that are records of non-delimiter characters joined by permitted "
-    "delimiters are accepted and cut exactly by the widths. Plus histories: a read abandoned after 1-2 rows (generator closed, dropped or kept) followed by a complete read of another well-formed input. Plus the same texts from streams whose name attribute is None, empty, a number or bytes (spooled temporary files, open(fd)), through fixed_rows and cutplace.rows. Plus random well-formed files of 5-40 records with one "
+    "delimiters are accepted and cut exactly by the widths. The same strings up to length 5 (thorough: 6) are read through cutplace.Reader from a character stream under a CID that declares the widths and the line delimiter. Plus histories: a read abandoned after 1-2 rows (generator closed, dropped or kept) followed by a complete read of another well-formed input. Plus the same texts from streams whose name attribute is None, empty, a number or bytes (spooled temporary files, open(fd)), through fixed_rows and cutplace.rows. Plus random well-formed files of 5-40 records with one "
     "character deleted / inserted / replaced at every offset, read from streams and from real files (utf-8, cp1252). "
     "Cases are distinct by construction (enumeration); all non-empty inputs count as non-trivial."
 )
@@ -96,7 +96,7 @@ def wellformed_records(text, total, setting):
             return records
 
 
-def judge(ctx, fixed_rows, errors, text, widths, setting, fields, source=None, tag="sweep"):
+def judge(ctx, fixed_rows, errors, text, widths, setting, fields, source=None, tag="sweep", suffix=""):
     try:
         rows = list(fixed_rows(source if source is not None else io.StringIO(text, newline=""), "utf-8", fields, setting if setting is not None else None))
         error = None
@@ -106,18 +106,18 @@ def judge(ctx, fixed_rows, errors, text, widths, setting, fields, source=None, t
             str(e)
         except Exception as e2:  # noqa
             case = {"text": text, "widths": list(widths), "setting": setting, "source": repr(getattr(source, "name", None))}
-            ctx.violation("C13:error-not-printable:%s" % type(e2).__name__, case, "the data-format error cannot be turned into text", observed=e2)
+            ctx.violation("C13:error-not-printable:%s%s" % (type(e2).__name__, suffix), case, "the data-format error cannot be turned into text", observed=e2)
             return
     except Exception as e:  # noqa
         case = {"text": text, "widths": list(widths), "setting": setting}
-        ctx.violation("C13:escape:%s" % type(e).__name__, case, "fixed_rows failed with something else than a data-format error", expected="rows or DataFormatError", observed=e)
+        ctx.violation("C13:escape:%s%s" % (type(e).__name__, suffix), case, "fixed_rows failed with something else than a data-format error", expected="rows or DataFormatError", observed=e)
         return
     total = sum(widths)
     records = wellformed_records(text, total, setting)
     if error is None:
         if not rebuilds(text, rows, widths, setting):
             case = {"text": text, "widths": list(widths), "setting": setting}
-            ctx.violation("C13:not-lossless", case, "returned rows do not reproduce the input with permitted delimiters (or an item has the wrong width)",
+            ctx.violation("C13:not-lossless" + suffix, case, "returned rows do not reproduce the input with permitted delimiters (or an item has the wrong width)",
                           expected="rows rebuilding the input", observed=rows)
             return
         if records is not None:
@@ -130,10 +130,30 @@ def judge(ctx, fixed_rows, errors, text, widths, setting, fields, source=None, t
                 want.append(row)
             if rows != want:
                 case = {"text": text, "widths": list(widths), "setting": setting}
-                ctx.violation("C13:misaligned", case, "well-formed input was cut differently from the declared widths", expected=want, observed=rows)
+                ctx.violation("C13:misaligned" + suffix, case, "well-formed input was cut differently from the declared widths", expected=want, observed=rows)
     elif records is not None:
         case = {"text": text, "widths": list(widths), "setting": setting}
-        ctx.violation("C13:wellformed-refused", case, "well-formed input was refused", expected="rows", observed=error)
+        ctx.violation("C13:wellformed-refused" + suffix, case, "well-formed input was refused", expected="rows", observed=error)
+
+
+READER_CIDS = {}
+
+
+def through_reader(source, encoding, fields, setting):
+    """Same signature as rowio.fixed_rows, but the stream is read by cutplace.Reader under a CID that declares these
+    widths and this line delimiter (free text that may be empty, so every cell passes the fields): what is stated about
+    fixed-width input holds for the validating API as well."""
+    import cutplace
+    from cutplace import interface
+
+    key = (tuple(fields), setting)
+    cid = READER_CIDS.get(key)
+    if cid is None:
+        cid = interface.Cid()
+        name = {"\n": "LF", "\r": "CR", "\r\n": "CRLF", "any": "Any", None: "None"}[setting]
+        cid.read("<c13>", [["D", "Format", "Fixed"], ["D", "Line delimiter", name]] + [["F", n, "", "X", str(w), "Text", ""] for n, w in fields])
+        READER_CIDS[key] = cid
+    return cutplace.Reader(cid, source).rows()
 
 
 def run(ctx):
@@ -162,6 +182,14 @@ def run(ctx):
         ctx.bulk(len(strings), len(strings) - 1, sample={"widths": list(widths), "setting": setting, "texts": "all strings up to length %d over {a,b,CR,LF}" % L} if index < 3 else None)
         ctx.count("sweep.combinations")
         ctx.count("sweep.cases", len(strings))
+        # the same through cutplace.Reader on a character stream (all strings up to length 5 / 6)
+        shorter = [t for t in strings if len(t) <= ctx.pick(5, 6)]
+        for text in shorter:
+            judge(ctx, through_reader, errors, text, widths, setting, fields, suffix=":reader")
+            if ctx.violation_count - before > 20:
+                break
+        ctx.bulk(len(shorter), len(shorter) - 1, sample={"widths": list(widths), "setting": setting, "texts": "the same strings up to length %d through cutplace.Reader" % ctx.pick(5, 6)} if index < 3 else None)
+        ctx.count("sweep.cases-through-reader", len(shorter))
     reach.resume()
     ctx.exhaustive = True
     ctx.note("exhaustive part: %d strings x %d width lists x %d settings" % (len(strings), len(wl), len(SETTINGS)))
